@@ -2,7 +2,7 @@
 id / temp-id receiver agreement (A9), temp-id reader support, dirty-flag discipline of
 stand-off members.  Value fidelity is not decided."""
 import re
-from synq import Syn, walk, find, unparse, norm_ty, strip, str_lits
+from synq import pat_names, strip, find,  Syn, walk, find, unparse, norm_ty, strip, str_lits
 
 # writer impl self type -> reader: ("struct", name) | ("visitor", visitor type)
 PAIRS = {
@@ -81,6 +81,44 @@ def run(ctx):
             for m in im["items"]:
                 if m.get("k") == "fn" and m["name"] == "serialize":
                     writers[key] = (im, m)
+    # ---- WHOLE: a persisted collection is written whole
+    r_whole = ctx.rule("C05.WHOLE", "a writer hands each collection to the serialiser as a whole (the store field, or a wrapper over it): it never filters, truncates or skips items of a persisted collection")
+    NARROW = {"filter", "filter_map", "take", "skip", "take_while", "skip_while", "step_by", "dedup", "truncate", "retain", "pop", "split_off", "drain"}
+    nw = 0
+    for wkey_, (im_, fn_) in sorted(writers.items()):
+        lets_ = {}
+        for nd in walk(fn_["body"]):
+            if nd.get("k") == "let" and nd.get("init") is not None:
+                for nm in pat_names(nd["pat"]):
+                    lets_[nm] = nd["init"]
+        for c in find(fn_["body"], "mcall"):
+            if c["method"] not in ("serialize_field", "serialize_element", "serialize_entry") or not c["args"]:
+                continue
+            val = strip(c["args"][-1])
+            nw += 1
+            fname = unparse(strip(c["args"][0]))[:30] if len(c["args"]) > 1 else "element"
+            r_whole.hit("%s|%s#%d" % (wkey_, fname, nw))
+            seen_ = set()
+            cur = val
+            guard = 0
+            while cur is not None and guard < 6:
+                guard += 1
+                if cur.get("k") == "path" and len(cur["path"]) == 1 and cur["path"][0] in lets_ and cur["path"][0] not in seen_:
+                    seen_.add(cur["path"][0])
+                    cur = strip(lets_[cur["path"][0]])
+                    continue
+                break
+            chain = []
+            c2 = cur
+            while c2 is not None and c2.get("k") == "mcall":
+                chain.append(c2["method"])
+                c2 = strip(c2["recv"])
+            base = unparse(c2) if c2 is not None else ""
+            narrowed = [m for m in chain if m in NARROW]
+            if narrowed and re.match(r"self\.\w+", base):
+                ctx.report(r_whole, "%s|%s|%s" % (wkey_, fname, narrowed[-1]), "the writer of %s emits %s from `%s` narrowed by .%s(): items of a persisted collection that do not pass are silently lost on save" % (wkey_, fname, base, narrowed[-1]), im_.get("_file"), c.get("l"))
+    ctx.floor(r_whole, nw, 30, "serialised fields / elements")
+
     n_pairs = 0
     for wkey, (rkind, rname) in PAIRS.items():
         if wkey not in writers:
